@@ -183,6 +183,31 @@ def one_case(rec, tap, rng, cid):
                       "scan/grid-outside-indentation",
                       "depth grid [%r, %r] outside [min x, 0]"
                       % (dl.min(), dl.max()), case)
+            # another number of samples is requested (via fit_model or by
+            # editing the setting) and the scan is asked for again
+            ns2 = int(ns + rng.integers(1, 6)) if rng.random() < .5 else \
+                max(7, int(ns - rng.integers(1, 4)))
+            if ns2 != ns:
+                case3 = dict(case, scan_again_with=ns2)
+                try:
+                    if rng.random() < .5 and not fpd.get(
+                            "optimal_fit_edelta"):
+                        idnt.fit_model(optimal_fit_num_samples=ns2)
+                    else:
+                        fpd["optimal_fit_num_samples"] = ns2
+                    em2, dl2 = idnt.compute_emodulus_mindelta()
+                except BaseException as e:  # noqa
+                    rec.event("second scan raised %s" % type(e).__name__)
+                else:
+                    rec.event("scans repeated with another sample count")
+                    rec.evaluated(dg=(spec, settings, "rescan", ns, ns2))
+                    rec.check(np.asarray(em2).size == ns2 and
+                              np.asarray(dl2).size == ns2,
+                              "scan/sample-count-after-change",
+                              "%d samples requested after %d, scan arrays "
+                              "have %d/%d entries"
+                              % (ns2, ns, np.asarray(em2).size,
+                                 np.asarray(dl2).size), case3)
     rec.sample({"model": spec["model"], "n": spec["n"], "mode": got,
                 "settings": settings,
                 "points_used": int(np.sum(idnt["fit range"]))}, limit=4)
